@@ -57,13 +57,14 @@ Qed.
 (** * Safety: a covered client never raises an error against a conformant peer *)
 
 Definition static_ok (e : env) : Prop :=
-  dgram_cap (e_adv e) <= l_dgram (e_enf e) /\ 0 < l_idle (e_adv e) /\ l_idle (e_adv e) <= l_idle (e_enf e).
+  dgram_cap (e_adv e) <= l_dgram (e_enf e) /\
+  (if adv_idle_fin (l_idle (e_adv e)) then l_idle (e_adv e) <= l_idle (e_enf e) else noIdleNs <= l_idle (e_enf e)).
 
 Lemma step_safe e s x :
   inv s -> static_ok e -> peer_ok e s x = true ->
   exists s', client_step e s x = (s', None) /\ inv s'.
 Proof.
-  intros I (Hd & Hi0 & Hi) P. destruct x as [ty n | ty n | n | k | len | k w | | d pidle pto3]; simpl in P |- *.
+  intros I (Hd & Hi) P. destruct x as [ty n | ty n | n | k | len | k w | | d pidle pto3]; simpl in P |- *.
   - (* EvData *)
     apply andb_prop in P as [P Pc]. apply andb_prop in P as [P Ps]. apply andb_prop in P as [Pn Po].
     assert (Ho : (ty =? 0) || fits_client s (cnt_kind ty) (implicit_open s ty) = true).
@@ -100,15 +101,18 @@ Proof.
   - (* EvRetireCID *)
     eexists. split; [reflexivity|]. destruct (1 <? used (s KCID)); [apply inv_bump|]; exact I.
   - (* EvSilence *)
-    apply andb_prop in P as [P Pv]. apply andb_prop in P as [P P3]. apply andb_prop in P as [P1 P2].
-    apply Z.leb_le in P1, P2, P3.
+    apply andb_prop in P as [P Pv]. apply andb_prop in P as [P P3]. apply andb_prop in P as [P P2].
+    apply andb_prop in P as [P1 Pb].
+    apply Z.leb_le in P1, P2, P3. apply Z.ltb_lt in Pb.
     unfold peer_idle_view in Pv. unfold idle_deadline, client_idle.
-    destruct (Z.ltb_spec 0 (l_idle (e_adv e))); [|lia].
-    destruct (Z.ltb_spec 0 pidle); apply Z.ltb_lt in Pv.
-    + destruct (Z.leb_spec (Z.max (Z.min (l_idle (e_enf e)) pidle) pto3) d); [lia|].
-      eexists. split; [reflexivity | exact I].
-    + destruct (Z.leb_spec (Z.max (l_idle (e_enf e)) pto3) d); [lia|].
-      eexists. split; [reflexivity | exact I].
+    unfold adv_idle_fin in Hi.
+    assert (G : d < (if 0 <? pidle then Z.min (l_idle (e_enf e)) pidle else l_idle (e_enf e))).
+    { destruct (Z.ltb_spec 0 (l_idle (e_adv e))) as [A|A]; cbn [andb] in Hi.
+      - destruct (Z.ltb_spec (l_idle (e_adv e)) noIdleNs);
+          destruct (Z.ltb_spec 0 pidle); apply Z.ltb_lt in Pv; lia.
+      - destruct (Z.ltb_spec 0 pidle); [apply Z.ltb_lt in Pv|]; lia. }
+    destruct (Z.leb_spec (Z.max (if 0 <? pidle then Z.min (l_idle (e_enf e)) pidle else l_idle (e_enf e)) pto3) d); [lia|].
+    eexists. split; [reflexivity | exact I].
 Qed.
 
 Lemma run_safe e : static_ok e -> forall h s, inv s -> forall c, run e s h <> Err c.
@@ -184,7 +188,7 @@ Proof.
   rewrite Z.gtb_ltb. rewrite (proj2 (Z.ltb_lt _ _) H). eexists; reflexivity.
 Qed.
 
-Lemma wit_idle adv enf : 0 < l_idle enf -> (l_idle adv <= 0 \/ l_idle enf < l_idle adv) ->
+Lemma wit_idle adv enf : 0 < l_idle enf < noIdleNs -> (l_idle adv <= 0 \/ l_idle enf < l_idle adv) ->
   play adv enf [EvSilence (l_idle enf) 0 0] = Err IdleTimeout.
 Proof.
   intros H0 H. unfold play. cbn [run]. unfold peer_ok, client_step, peer_idle_view, idle_deadline, client_idle.
@@ -208,8 +212,12 @@ Proof.
   - destruct (Z_le_gt_dec (l_cid adv) (l_cid enf)); [assumption|]. exfalso. eapply N, wit_cid; lia.
   - destruct (Z_le_gt_dec (dgram_cap adv) (l_dgram enf)); [assumption|]. exfalso.
     destruct (wit_dgram adv enf S8) as [c Hc]; [lia|]. eapply N, Hc.
-  - destruct (Z_lt_le_dec 0 (l_idle adv)); [assumption|]. exfalso. eapply N, wit_idle; [lia | left; lia].
-  - destruct (Z_le_gt_dec (l_idle adv) (l_idle enf)); [assumption|]. exfalso. eapply N, wit_idle; [lia | right; lia].
+  - unfold adv_idle_fin.
+    destruct (Z.ltb_spec 0 (l_idle adv)); destruct (Z.ltb_spec (l_idle adv) noIdleNs); cbn [andb].
+    + destruct (Z_le_gt_dec (l_idle adv) (l_idle enf)); [assumption|]. exfalso. eapply N, wit_idle; [lia | right; lia].
+    + destruct (Z_le_gt_dec noIdleNs (l_idle enf)); [assumption|]. exfalso. eapply N, wit_idle; [lia | right; lia].
+    + destruct (Z_le_gt_dec noIdleNs (l_idle enf)); [assumption|]. exfalso. eapply N, wit_idle; [lia | left; lia].
+    + destruct (Z_le_gt_dec noIdleNs (l_idle enf)); [assumption|]. exfalso. eapply N, wit_idle; [lia | left; lia].
 Qed.
 
 Theorem no_error_iff adv enf : enf_sane enf ->
@@ -219,7 +227,8 @@ Proof. intros S. split; [apply safe_covers, S | apply covers_safe]. Qed.
 (** [coversb] decides [covers] *)
 Lemma coversb_spec adv enf : covers adv enf <-> forallb (fun b => b) (coversb adv enf) = true.
 Proof.
-  unfold covers, coversb. simpl. rewrite !andb_true_iff, !Z.leb_le, Z.ltb_lt. tauto.
+  unfold covers, coversb. simpl. rewrite !andb_true_iff, !Z.leb_le.
+  destruct (adv_idle_fin (l_idle adv)); rewrite Z.leb_le; tauto.
 Qed.
 
 (** * The enforced side in terms of Config and constants *)
@@ -265,7 +274,7 @@ Lemma covers_enforced_explicit a c :
   l_s_bidi a <= c_mis c /\ l_s_uni a <= c_mius c /\
   l_cid a <= protoMaxActiveConnectionIDs /\
   Z.min (l_dgram a) (Z.min (l_udp a) protoMaxPacketBufferSize - minPacketOverhead) <= (if c_dg c then wireMaxDatagramSize else 0) /\
-  (0 < l_idle a /\ l_idle a <= c_idle c).
+  (if adv_idle_fin (l_idle a) then l_idle a <= c_idle c else noIdleNs <= c_idle c).
 Proof. unfold covers, enforced, dgram_cap. simpl. tauto. Qed.
 
 (** * The plain client advertises what it enforces *)
@@ -275,44 +284,53 @@ Proof.
   intros H. unfold nsPerMs in H.
   assert (A : 1 <= c_idle c / 1000000) by (apply Z.div_le_lower_bound; lia).
   pose proof (Z.mul_div_le (c_idle c) 1000000 eq_refl) as B.
-  unfold covers, plain_advertised, enforced, dgram_cap, nsPerMs.
+  unfold covers, plain_advertised, enforced, dgram_cap, nsPerMs, adv_idle_fin.
   cbn [l_max_data l_sd_bl l_sd_br l_sd_uni l_s_bidi l_s_uni l_cid l_dgram l_idle l_udp].
   repeat split; try apply Z.le_refl.
   - apply Z.le_min_l.
-  - lia.
-  - lia.
+  - destruct (Z.ltb_spec 0 (c_idle c / 1000000 * 1000000)); [|lia].
+    destruct (Z.ltb_spec (c_idle c / 1000000 * 1000000) noIdleNs); cbn [andb]; lia.
 Qed.
 
 (** * The spec-driven client covers what its spec advertises, whatever the Config *)
 
+(* the only demand on the parameter list: stream counts within the protocol maximum (a larger value is
+   a TRANSPORT_PARAMETER_ERROR at the peer anyway). Whether and what idle timeout is advertised does
+   not matter any more: without one the client has none of its own. *)
 Definition spec_valid (a : limits) : Prop :=
-  0 < l_idle a /\ l_idle a / nsPerMs <= maxDurationMs /\
   l_s_bidi a <= protoMaxStreamCount /\ l_s_uni a <= protoMaxStreamCount.
 
 Lemma spec_covers a c : spec_valid a -> covers a (enforced_spec a c).
 Proof.
-  intros (Hi & Hg & Hb & Hu). unfold covers, enforced_spec, enforced, cover_config, dgram_cap.
+  intros (Hb & Hu). unfold covers, enforced_spec, enforced, cover_config, dgram_cap.
   cbn [l_max_data l_sd_bl l_sd_br l_sd_uni l_s_bidi l_s_uni l_cid l_dgram l_idle l_udp
        c_isw c_msw c_icw c_mcw c_mis c_mius c_dg c_idle].
-  rewrite (proj2 (Z.leb_le _ _) Hg).
   unfold protoMaxStreamCount in *.
   repeat split; try lia.
-  unfold protoMaxPacketBufferSize, minPacketOverhead, wireMaxDatagramSize.
-  destruct (c_dg c); cbn [orb]; [lia|].
-  destruct (Z.ltb_spec 0 (l_dgram a)); lia.
+  - unfold protoMaxPacketBufferSize, minPacketOverhead, wireMaxDatagramSize.
+    destruct (c_dg c); cbn [orb]; [lia|].
+    destruct (Z.ltb_spec 0 (l_dgram a)); lia.
+  - unfold adv_idle_fin.
+    destruct (Z.ltb_spec 0 (l_idle a)); cbn [andb]; [|lia].
+    destruct (Z.ltb_spec (l_idle a) noIdleNs);
+      destruct (Z.leb_spec (l_idle a / nsPerMs) (noIdleNs / nsPerMs)); try lia;
+      exfalso; assert (l_idle a / nsPerMs <= noIdleNs / nsPerMs) by (apply Z.div_le_mono; [reflexivity | lia]); lia.
 Qed.
 
 Lemma spec_client_ok a c : spec_valid a -> forall h code, play a (enforced_spec a c) h <> Err code.
 Proof. intros V. apply covers_safe, spec_covers, V. Qed.
 
-(* what remains: a spec that does not advertise max_idle_timeout tells its peer "no idle timeout"
-   (RFC 9000 10.1) while the client still gives up after Config.MaxIdleTimeout *)
-Lemma idle_not_advertised_refuted a c : l_idle a <= 0 -> 0 < c_idle c ->
-  play a (enforced_spec a c) [EvSilence (l_idle (enforced_spec a c)) 0 0] = Err IdleTimeout.
+(* Regression: the shape before this repair -- a list without max_idle_timeout, the client still giving
+   up after Config.MaxIdleTimeout ([enforced] alone, no "no idle timeout" value) -- was refuted *)
+Lemma idle_not_advertised_old_shape_refuted a (c : config) : l_idle a <= 0 -> 0 < c_idle c < noIdleNs ->
+  play a (enforced c) [EvSilence (c_idle c) 0 0] = Err IdleTimeout.
+Proof. intros H0 Hc. apply (wit_idle a (enforced c)); [exact Hc | left; exact H0]. Qed.
+
+(* now: whatever the Config, such a list is covered; the client's idle timeout is the peer's or none *)
+Lemma idle_not_advertised_ok a c : l_idle a <= 0 -> noIdleNs <= l_idle (enforced_spec a c).
 Proof.
-  intros H0 Hc. apply wit_idle; [|left; exact H0].
-  unfold enforced_spec, enforced, cover_config. cbn [l_idle c_idle].
-  destruct (l_idle a / nsPerMs <=? maxDurationMs); lia.
+  intros H0. unfold enforced_spec, enforced, cover_config. cbn [l_idle c_idle].
+  destruct (Z.ltb_spec 0 (l_idle a)); lia.
 Qed.
 
 (** * Transport parameter encoding: a peer parsing the bytes gets the list back *)
